@@ -279,6 +279,45 @@ let run_push () =
   | RErr e -> Printf.sprintf "EXIT 1 ERR %s | %s%s" (rerr_name e) (show_fs fs') trace
   | RPanic -> "PANIC | " ^ show_fs fs' ^ trace
 
+(* c01 <dir> <strip> <hexA|-> <hexB|-> <hexpatch> : is the patch text an exact diff from A to B (DiffCheck.c01_check) *)
+let run_c01 () =
+  let dir = if int () = 0 then Fwd else Rev in
+  let strip = int () in
+  let optfile () = (match !toks with
+                    | "-" :: r -> toks := r; None
+                    | "=" :: r -> toks := r; Some []
+                    | _ -> Some (bytes_of_ints (hexbytes ()))) in
+  let a = optfile () in
+  let bb = optfile () in
+  let patch = bytes_of_ints (hexbytes ()) in
+  match c01_check patch (nat_of_int strip) dir a bb with
+  | C01_NotOnePatch -> "NOT-ONE-PATCH"
+  | C01_Result (k, e, s) ->
+      Printf.sprintf "KIND %s EXACT %d SPEC %d" (match k with Modify -> "M" | Create -> "C" | Delete -> "D")
+        (if e then 1 else 0) (if s then 1 else 0)
+
+(* applyb <strip> <dir> <fuzz> <hexfile|=|-> <hexpatch> : parse, apply the only file patch to the file given as bytes *)
+let run_applyb () =
+  let strip = int () in
+  let dir = if int () = 0 then Fwd else Rev in
+  let fuzz = int () in
+  let file = (match !toks with
+              | "-" :: r -> toks := r; None
+              | "=" :: r -> toks := r; Some []
+              | _ -> Some (bytes_of_ints (hexbytes ()))) in
+  let patch = bytes_of_ints (hexbytes ()) in
+  match parse_patch patch (nat_of_int strip) false with
+  | Ok (Parsed { pp_header = _; pp_fps = [fp] }) ->
+      let mf = (match file with
+                | Some bs -> { content = split_lines bs; existed = true; deleted = false; perm = None }
+                | None -> { content = []; existed = false; deleted = true; perm = None }) in
+      (match apply_B (to_fpatch fp) mf dir (nat_of_int fuzz) with
+       | Ok (mf', rep) -> Printf.sprintf "OK d%d %s %s" (if mf'.deleted then 1 else 0) (hexb (concat_lines mf'.content)) (show_report rep)
+       | Panic -> "PANIC" | Diverge -> "DIVERGE")
+  | Ok (Parsed _) -> "NOT-ONE-PATCH"
+  | Ok (ParseErr e) -> "ERR " ^ err_name e
+  | Panic -> "PANIC" | Diverge -> "DIVERGE"
+
 (* ---------- main loop ---------- *)
 let run_case line =
   toks := List.filter (fun s -> s <> "") (String.split_on_char ' ' line);
@@ -291,6 +330,8 @@ let run_case line =
   | "parse" -> run_parse ()
   | "rt" -> run_rt ()
   | "push" -> run_push ()
+  | "c01" -> run_c01 ()
+  | "applyb" -> run_applyb ()
   | k -> "UNKNOWN " ^ k
 
 let () =
